@@ -59,17 +59,21 @@ func isConfinedBase(fn, base string) bool {
 	case strings.HasPrefix(name, "New"): // constructors
 		return true
 	}
-	if matrixCopied && (fn == "task:resolveMatrixRefs" || fn == "task:product") && base == "row" {
+	// bases are printed by ORIGIN (see baseOrigin): ‹rhs of the local's definition› / ‹range X›; receivers and parameters by name
+	if matrixCopied && (fn == "task:resolveMatrixRefs" || fn == "task:product") && base == "‹range ‹*ast.Matrix›.All()›" {
 		return true // rows of the private copy made by itemsFromFor
 	}
 	switch fn + "|" + base {
-	case "task:Executor.compiledTask|newCmd", "task:Executor.compiledTask|newDep", "task:Executor.compiledTask|newPrecondition", // fresh copies
-		"taskfile/ast:Vars.Merge|value", // a local copy of the map element
-		"task:Executor.compiledTask|new", // the compiled copy
-		"task:Executor.runDeferred|cmd",        // a command of this activation's compiled copy
+	case "task:Executor.compiledTask|‹‹*ast.Cmd›.DeepCopy()›", "task:Executor.compiledTask|‹‹*ast.Dep›.DeepCopy()›",
+		"task:Executor.compiledTask|‹‹*ast.Precondition›.DeepCopy()›",            // fresh copies
+		"taskfile/ast:Vars.Merge|‹‹*orderedmap.Element[string, ast.Var]›.Value›", // a local copy of the map element
+		"task:Executor.runDeferred|‹‹*ast.Task›.Cmds[‹int›]›",                    // a command of this activation's compiled copy
 		"taskfile/ast:Vars.UnmarshalYAML|vs",
 		"taskfile/ast:Vars.Set|vars", "taskfile/ast:Tasks.Set|tasks", "taskfile/ast:Matrix.Set|matrix": // lazy init of a nil map: only on objects under construction
 		return true
+	}
+	if fn == "task:Executor.compiledTask" && strings.HasPrefix(base, "‹ast.Task{") {
+		return true // the compiled copy under construction
 	}
 	return false
 }
